@@ -565,9 +565,16 @@ def _w_close(fd):
     try:
         return w.syscall('os.close', fd, thunk, mutating=True)
     except OSError:
-        # an injected close() failure still releases the descriptor (POSIX)
+        # an injected close() failure still releases the descriptor (POSIX) -- and, as with a deferred write error
+        # (quota, NFS), part of what was written never reached the file
         if fd in w.fds:
             w.fds.pop(fd, None)
+            try:
+                size = os.fstat(fd).st_size
+                if size > 0:
+                    os.ftruncate(fd, size // 2)
+            except OSError:
+                pass
             try:
                 R.close(fd)
             except OSError:
